@@ -19,6 +19,7 @@ import (
 	"os"
 	"runtime"
 	"strings"
+	"sync/atomic"
 	"testing"
 	"time"
 
@@ -26,6 +27,8 @@ import (
 	"github.com/rqlite/rqlite/v10/internal/verif/vstat"
 	"pgregory.net/rapid"
 )
+
+var c32ReapForced atomic.Bool
 
 type reapCase struct {
 	VoterT, ROT time.Duration
@@ -42,7 +45,7 @@ func (c reapCase) String() string {
 func TestVerif_C32_Reap(t *testing.T) {
 	vnode.QuietLogs()
 	rec := vstat.New(t, "C32", "reap",
-		"rapid over the full grid ReapTimeout {0,3s} x ReapReadOnlyTimeout {0,3s} x victim role {voter,non-voter} x cluster shape (3 voters, 1-2 non-voters) x pre-step {none, stepdown, victim changed role by re-join}; "+
+		"rapid over the full grid ReapTimeout {0,3s} x ReapReadOnlyTimeout {0,3s} x victim role {voter,non-voter} x cluster shape (3 voters, 1-2 non-voters) x pre-step {none, stepdown, victim changed role by re-join, the same with another peer already unresponsive (forced as the first case of every process)}; "+
 			"non-trivial = a member was killed and watched; distinct = the tuple")
 	rapid.Check(t, func(rt *rapid.T) {
 		c := reapCase{
@@ -51,8 +54,20 @@ func TestVerif_C32_Reap(t *testing.T) {
 			VictimVoter: rapid.Bool().Draw(rt, "victimVoter"),
 			Voters:      3,
 			NV:          rapid.IntRange(1, 2).Draw(rt, "nv"),
-			Pre:         []string{"none", "none", "stepdown", "victim-role-change"}[rapid.IntRange(0, 3).Draw(rt, "pre")],
+			Pre:         []string{"none", "none", "stepdown", "victim-role-change", "stale-cache-role-change"}[rapid.IntRange(0, 4).Draw(rt, "pre")],
 			Pick:        rapid.IntRange(0, 7).Draw(rt, "pick"),
+		}
+		// Reached by construction once per process (first case): another peer is already unresponsive
+		// (the leader has observed failed heartbeats), then the victim re-joins with the other role and
+		// is killed; its CURRENT role is never reaped (timeout 0) while its old role's timeout is 3 s.
+		if c32ReapForced.CompareAndSwap(false, true) {
+			c.Pre, c.NV = "stale-cache-role-change", 2
+			if c.VictimVoter {
+				c.VoterT, c.ROT = 0, reapT
+			} else {
+				c.VoterT, c.ROT = reapT, 0
+			}
+			rec.Label("forced:stale-cache-role-change-then-kill")
 		}
 		dir, err := os.MkdirTemp("", "c32r-")
 		if err != nil {
@@ -121,9 +136,28 @@ func TestVerif_C32_Reap(t *testing.T) {
 			return
 		}
 		var victim *member
-		if c.Pre == "victim-role-change" {
-			// pick a member of the opposite role and let it re-join with the role under test
+		var bystander *member
+		if c.Pre == "stale-cache-role-change" {
+			// pick the victim first (opposite role now), then make another non-voter unresponsive
 			victim = e.pickMember(c.Pick, func(m *member) bool { return m.alive && m.node != l && m.voter != c.VictimVoter && m.sure() })
+			bystander = e.pickMember(c.Pick+1, func(m *member) bool { return m.alive && m.node != l && m != victim && !m.voter })
+			if victim == nil || bystander == nil {
+				rec.Label("inconclusive:no-bystander")
+				rec.Case(false, c.String())
+				return
+			}
+			e.c.Crash(bystander.node)
+			bystander.alive = false
+			bystander.deadAt = time.Now()
+			e.trace = append(e.trace, "kill bystander "+bystander.id)
+			time.Sleep(500 * time.Millisecond) // the leader sees failed heartbeats while the victim still has its old role
+			rec.Label("pre:stale-cache-role-change")
+		}
+		if c.Pre == "victim-role-change" || c.Pre == "stale-cache-role-change" {
+			// pick a member of the opposite role and let it re-join with the role under test
+			if victim == nil {
+				victim = e.pickMember(c.Pick, func(m *member) bool { return m.alive && m.node != l && m.voter != c.VictimVoter && m.sure() })
+			}
 			if victim != nil && (!victim.voter || e.canStopVoter()) {
 				if err := e.join(victim.node, victim.id, victim.addr, c.VictimVoter); err != nil {
 					rec.Label("inconclusive:role-change-failed")
